@@ -933,6 +933,10 @@ func (w *WalletManager) CreateRawTransaction(
 		return "", massutil.ZeroAmount(), err
 	}
 
+	if len(senders) == 0 {
+		return "", massutil.ZeroAmount(), ErrInvalidParameter
+	}
+
 	// if change address not specified, use first sender address(non-staking address)
 	if len(changeAddr) == 0 {
 		changeAddr = senders[0].StdEncodeAddress()
